@@ -1,0 +1,47 @@
+//go:build verif
+
+package backup
+
+// Contracts for govc (comment-only; compiled only with -tags verif). Property C37.
+//
+// The provider and the storage client are foreign objects: they cannot reach the Uploader's
+// (unexported) bookkeeping fields (trusted frame).
+//@ func (DataProvider) LastIndex
+//@   noheap
+//@ func (DataProvider) Provide
+//@   noheap
+//@ func (StorageClient) CurrentID
+//@   noheap
+//@ func (StorageClient) Upload
+//@   noheap
+//
+// One upload round: the index is read BEFORE the data is produced (so the backup contains every
+// change up to the index it is labelled with); nothing is produced or uploaded when the index
+// has not advanced; at most one upload, only after a successful Provide, labelled with that
+// index, with the file rewound; the index is recorded as done iff the upload returned nil.
+//@ func (*Uploader) upload
+//@   requires [recv] u != nil
+//@   ghost var last0 int = u.lastIndex
+//@   ghost var gotLI bool = false
+//@   ghost var liV int = 0
+//@   ghost var liErr error = nil
+//@   ghost var nProvide int = 0
+//@   ghost var provErr error = nil
+//@   ghost var nUpload int = 0
+//@   ghost var upErr error = nil
+//@   ghost var rewound bool = false
+//@   ghost update @u.dataProvider.LastIndex: gotLI = true
+//@   ghost update @u.dataProvider.LastIndex: liV = result0
+//@   ghost update @u.dataProvider.LastIndex: liErr = result1
+//@   assert @u.dataProvider.Provide: [index-before-data] gotLI && liErr == nil && nProvide == 0 && liV > last0
+//@   ghost update @u.dataProvider.Provide: nProvide = nProvide + 1
+//@   ghost update @u.dataProvider.Provide: provErr = result
+//@   ghost update @fd.Seek: rewound = (result1 == nil && arg0 == 0 && arg1 == io.SeekStart)
+//@   assert @u.storageClient.Upload: [upload-after-provide] nProvide == 1 && provErr == nil && nUpload == 0 && rewound
+//@   assert @u.storageClient.Upload: [labelled-with-index] arg2 == strconv.FormatUint(liV, 10)
+//@   ghost update @u.storageClient.Upload: nUpload = nUpload + 1
+//@   ghost update @u.storageClient.Upload: upErr = result
+//@   ensures [skip-iff-unchanged] (liErr == nil && liV <= last0) ==> (nProvide == 0 && nUpload == 0 && u.lastIndex == last0 && result == nil)
+//@   ensures [recorded-iff-uploaded] u.lastIndex == ite(nUpload == 1 && upErr == nil, liV, last0)
+//@   ensures [failure-reported] ((nUpload == 1 && upErr != nil) || (nProvide == 1 && provErr != nil) || liErr != nil) ==> result != nil
+//@   ensures [at-most-once] nUpload <= 1 && nProvide <= 1
